@@ -1,4 +1,5 @@
 use crate::diagnostic_emitter::MosResult;
+use std::path::Path;
 use crate::impl_request_handler;
 use crate::lsp::{to_range, LspContext, RequestHandler};
 use crate::test_runner::enumerate_test_cases;
@@ -15,14 +16,13 @@ impl RequestHandler<CodeLensRequest> for CodeLensRequestHandler {
         ctx: &mut LspContext,
         params: CodeLensParams,
     ) -> MosResult<Option<Vec<CodeLens>>> {
-        let tests = enumerate_test_cases(
-            ctx.parsing_source(),
-            &params.text_document.uri.to_file_path().unwrap(),
-        )
-        .unwrap_or_default();
+        let path = params.text_document.uri.to_file_path().unwrap();
+        let tests = enumerate_test_cases(ctx.parsing_source(), &path).unwrap_or_default();
 
         let result = tests
             .into_iter()
+            // (the tests of imported files have their lenses in those files)
+            .filter(|(sl, _)| Path::new(sl.file.name()) == path.as_path())
             .flat_map(|(sl, test_case_path)| {
                 let run = CodeLens {
                     range: to_range(sl.clone()),
